@@ -44,8 +44,9 @@ void UncompressedFile::read(char * s, std::streamsize n) {
     if (n + m_tellg > m_fileSize) {
         n = m_fileSize - m_tellg;
         m_rdstate = std::ios_base::eofbit | std::ios_base::failbit;
-    } else
+    } else if (n > 0)
         m_rdstate = std::ios_base::goodbit;
+    /* a read of zero bytes leaves the state as it is: it must not hide an earlier short read */
 
     /* read data */
     m_gcount = 0;
